@@ -189,4 +189,5 @@ def run(chk):
 
 
 def safety_net(chk):
-    return decode_battery(chk.seed)
+    from sym import ptreplay
+    return decode_battery(chk.seed) or ptreplay.battery_decode_history(chk.seed)
